@@ -24,6 +24,7 @@ package main
 import (
 	"fmt"
 	"go/ast"
+	"go/token"
 	"go/types"
 	"regexp"
 	"sort"
@@ -328,6 +329,10 @@ func checkC05(c *Ctx) {
 	crossScenarioKeys(c, "R05i", "go")
 	r.Rule("R05h", "codec collectors visit nested declarations unconditionally", 14)
 	collectorRecursion(c, "R05h")
+	r.Rule("R05j", "codec emitters are called on every successful path of generateFile (not behind the no-services return)", 16)
+	codecEmittersUnconditional(c, "R05j")
+	r.Rule("R05k", "bytes decoded by a child's own UnmarshalJSON are not re-decoded by the final protojson decode", 2)
+	customFormReachesProtojson(c, "R05k")
 }
 
 // c05Consumers: R05g. Annotations are identified by the extension they are stored in
@@ -506,4 +511,201 @@ func collectorRecursion(c *Ctx, rule string) {
 				fmt.Sprintf("%s.%s: %s: a message declared inside another message gets no %s codec unless its parent satisfies some condition, so it is written in plain protojson form and read back differently from the documented form", pkgShort(pkg), name, why, f.Name))
 		}
 	}
+}
+
+// codecEmittersUnconditional: in both Go plugins' generateFile every emitter of a
+// codec unit (a unit that declares MarshalJSON/UnmarshalJSON) lies on every path
+// that can succeed — in particular it is not behind the "file has no services"
+// return: a file of messages only is encoded by the services of other files.
+func codecEmittersUnconditional(c *Ctx, rid string) {
+	r := c.R
+	for _, pkg := range []string{pkgHTTP, pkgClient} {
+		gf := c.P.Func(pkg, "Generator.generateFile")
+		if gf == nil {
+			r.Unres(rid, pkgShort(pkg)+" generateFile", "", "not found")
+			continue
+		}
+		decl := c.P.Decls[gf]
+		info := c.P.DeclPkg[gf].TypesInfo
+		codec := map[*types.Func]string{}
+		for _, ri := range c.goUnitRoots() {
+			if ri.Pkg == pkg && unitDeclaresCodec(c.Explore(ri.Fn, 1, 6000)) {
+				codec[ri.Fn] = ri.Suffix
+			}
+		}
+		n := 0
+		ast.Inspect(decl.Body, func(nd ast.Node) bool {
+			call, ok := nd.(*ast.CallExpr)
+			if !ok {
+				return true
+			}
+			suf, ok := codec[Callee(info, call)]
+			if !ok {
+				return true
+			}
+			n++
+			ok2, esc := mustPass(info, decl.Body, []token.Pos{call.Pos()})
+			pos := c.P.Pos(call.Pos())
+			why := ""
+			if !ok2 {
+				why = fmt.Sprintf("%s generateFile can return successfully at %s without having called the emitter of *%s: messages of such a file (for example a file without services) carry the annotation but get no codec, so they are encoded with the plain proto3 JSON mapping while the schema and the TypeScript types describe the annotated form", pkgShort(pkg), c.P.Pos(esc), suf)
+			}
+			r.Check(ok2, rid, pkgShort(pkg)+" generateFile: *"+suf+" is emitted on every successful path", pos, why)
+			return true
+		})
+		if n < len(codec) {
+			r.Bad(rid, pkgShort(pkg)+" generateFile calls every codec emitter", c.P.Pos(decl.Pos()), fmt.Sprintf("%d of %d codec unit emitters are called directly from generateFile", n, len(codec)), nil)
+		}
+	}
+}
+
+// customFormReachesProtojson: in an emitted UnmarshalJSON that re-marshals a key
+// map M and hands it to protojson.Unmarshal(…, x), bytes V that were handed to a
+// child's own UnmarshalJSON (so V may be in the child's annotated form, which
+// protojson does not understand) must not be part of M when it is re-decoded:
+//   (a) no `M[k] = V`;
+//   (b) when V was read from M[k], the key is deleted or overwritten (with bytes
+//       that did not go to a custom decoder, i.e. protojson.Marshal output).
+// Otherwise the final protojson decode re-reads the annotated form with the plain
+// mapping (and resets what the child's decoder produced).
+func customFormReachesProtojson(c *Ctx, rid string) {
+	r := c.R
+	type site struct{ pos, msg string }
+	sites := map[string]site{}
+	okSites := map[string]string{}
+	for _, ri := range c.goUnitRoots() {
+		ex := c.Explore(ri.Fn, 1, 6000)
+		if !unitDeclaresCodec(ex) {
+			continue
+		}
+		for _, v := range ex.Variants {
+			for _, u := range v.Units {
+				fset, f, err := ParseUnit(u)
+				if err != nil {
+					continue
+				}
+				at := func(p token.Pos) (string, string) {
+					line := fset.Position(p).Line
+					if line >= 1 && line <= len(u.Lines) {
+						em := "?"
+						if u.Lines[line-1].Fn != nil {
+							em = u.Lines[line-1].Fn.Name()
+						}
+						return c.P.Pos(u.Lines[line-1].Pos), em
+					}
+					return "", "?"
+				}
+				for _, d := range f.Decls {
+					fd, ok := d.(*ast.FuncDecl)
+					if !ok || fd.Body == nil || fd.Name.Name != "UnmarshalJSON" {
+						continue
+					}
+					// M: maps re-marshalled into the bytes of the final protojson decode
+					marsh := map[string]string{} // result var -> map name
+					maps := map[string]bool{}
+					custom := map[string]bool{}
+					ast.Inspect(fd.Body, func(n ast.Node) bool {
+						switch x := n.(type) {
+						case *ast.AssignStmt:
+							if len(x.Rhs) == 1 {
+								if call, ok := x.Rhs[0].(*ast.CallExpr); ok && types.ExprString(call.Fun) == "json.Marshal" && len(call.Args) == 1 {
+									if id, ok := call.Args[0].(*ast.Ident); ok {
+										if l, ok := x.Lhs[0].(*ast.Ident); ok {
+											marsh[l.Name] = id.Name
+										}
+									}
+								}
+							}
+						case *ast.CallExpr:
+							if sel, ok := x.Fun.(*ast.SelectorExpr); ok && sel.Sel.Name == "UnmarshalJSON" && len(x.Args) == 1 {
+								if id, ok := x.Args[0].(*ast.Ident); ok {
+									custom[id.Name] = true
+								}
+							}
+						}
+						return true
+					})
+					ast.Inspect(fd.Body, func(n ast.Node) bool {
+						if call, ok := n.(*ast.CallExpr); ok && types.ExprString(call.Fun) == "protojson.Unmarshal" && len(call.Args) == 2 && types.ExprString(call.Args[1]) == "x" {
+							if id, ok := call.Args[0].(*ast.Ident); ok && marsh[id.Name] != "" {
+								maps[marsh[id.Name]] = true
+							}
+						}
+						return true
+					})
+					if len(maps) == 0 || len(custom) == 0 {
+						continue
+					}
+					isM := func(e ast.Expr) (string, bool) {
+						ix, ok := e.(*ast.IndexExpr)
+						if !ok {
+							return "", false
+						}
+						id, ok := ix.X.(*ast.Ident)
+						if !ok || !maps[id.Name] {
+							return "", false
+						}
+						return types.ExprString(ix.Index), true
+					}
+					// (a) and collect overwrites / deletes per key
+					cleared := map[string]bool{}
+					ast.Inspect(fd.Body, func(n ast.Node) bool {
+						switch x := n.(type) {
+						case *ast.AssignStmt:
+							if len(x.Lhs) == 1 && len(x.Rhs) == 1 {
+								if k, ok := isM(x.Lhs[0]); ok {
+									if id, ok := x.Rhs[0].(*ast.Ident); ok && custom[id.Name] {
+										pos, em := at(x.Pos())
+										sites[pkgShort(ri.Pkg)+" "+em+": bytes given to the child's own UnmarshalJSON are stored into the re-decoded map"] = site{pos,
+											fmt.Sprintf("the emitted decoder stores %s, which was handed to the child's own UnmarshalJSON (annotated form), into %s: the final protojson.Unmarshal re-reads it with the plain proto3 JSON mapping (rejects or mis-reads the annotated form, and resets the value the child's decoder produced)", id.Name, holeFree(types.ExprString(x.Lhs[0])))}
+									} else {
+										cleared[k] = true
+									}
+								}
+							}
+						case *ast.CallExpr:
+							if id, ok := x.Fun.(*ast.Ident); ok && id.Name == "delete" && len(x.Args) == 2 {
+								if m, ok := x.Args[0].(*ast.Ident); ok && maps[m.Name] {
+									cleared[types.ExprString(x.Args[1])] = true
+								}
+							}
+						}
+						return true
+					})
+					// (b) V read from M[k]
+					ast.Inspect(fd.Body, func(n ast.Node) bool {
+						as, ok := n.(*ast.AssignStmt)
+						if !ok || as.Tok != token.DEFINE || len(as.Rhs) != 1 || len(as.Lhs) == 0 {
+							return true
+						}
+						k, ok := isM(as.Rhs[0])
+						if !ok {
+							return true
+						}
+						id, ok := as.Lhs[0].(*ast.Ident)
+						if !ok || !custom[id.Name] {
+							return true
+						}
+						pos, em := at(as.Pos())
+						key := pkgShort(ri.Pkg) + " " + em + ": bytes read from the map and given to the child's own UnmarshalJSON are removed from (or replaced in) the re-decoded map"
+						if cleared[k] {
+							okSites[key] = pos
+						} else {
+							sites[key] = site{pos, fmt.Sprintf("the emitted decoder hands %s (read from the key map) to the child's own UnmarshalJSON and leaves it in the map: the final protojson.Unmarshal(…, x) decodes the same bytes again with the plain proto3 JSON mapping and replaces the child — a child with an annotated JSON form (timestamp_format, bytes_encoding, nullable, nested flatten/oneof …) is rejected or mis-read", id.Name)}
+						}
+						return true
+					})
+				}
+			}
+		}
+	}
+	for k, p := range okSites {
+		if _, bad := sites[k]; !bad {
+			r.OK(rid, k, p)
+		}
+	}
+	for _, k := range sortedKeys(sites) {
+		r.Bad(rid, k, sites[k].pos, sites[k].msg, nil)
+	}
+	r.Count("decoders checked for custom-form bytes reaching protojson", len(okSites)+len(sites))
 }
